@@ -721,6 +721,27 @@ func c08engCases(tier string) []c08engCase {
 		a.objs = map[string]int{"o1": 6, "p": 4}
 		cs = append(cs, c08engCase{tag: "errres", hist: []c08ans{a, c08okAns(map[string]int{"r2": 8}, nil)}, errWithResults: true})
 	}
+	// 12. the same successful answers in a process that also declares the data object and contains a sub-process
+	for m := 1; m < 8; m += 2 {
+		for o := 1; o < 4; o++ {
+			res := map[string]int{"r1": 1}
+			if m&2 != 0 {
+				res["r2"] = 9
+			}
+			if m&4 != 0 {
+				res["u"] = 7
+			}
+			objs := map[string]int{}
+			if o&1 != 0 {
+				objs["o1"] = 3
+			}
+			if o&2 != 0 {
+				objs["p"] = 4
+			}
+			cs = append(cs, c08engCase{tag: "withsub", shape: "withsub", hist: []c08ans{c08okAns(res, objs)}})
+		}
+	}
+	cs = append(cs, c08engCase{tag: "withsub", shape: "withsub", hist: []c08ans{c08okAns(map[string]int{"r1": 0}, map[string]int{"o1": 5})}})
 	// 11. the handler decides LATE: the error answer comes at once, the decision 1.8 s later — longer than the task's own
 	//     timeout of 1.2 s, which bounds how long a REQUEST may stay unanswered, not how long a handler may think
 	for _, mode := range []int{3, 1, 2} {
@@ -838,6 +859,24 @@ func c08engXMLShape(shape string, td int) (string, map[string]string) {
 		g.Connect(a, en, nil)
 	}
 	return g.XML(), g.CondRPN
+}
+
+// withSub: the process also DECLARES the data object o1 and contains an embedded sub-process (behind task C; most runs never
+// enter it) — what a task is handed as its data inputs does not depend on what else the process contains
+func c08engXMLSub(td, timeoutMs int) (string, map[string]string) {
+	x, rpn := c08engXML(td, timeoutMs)
+	x = strings.Replace(x, `<bpmn:startEvent id="start">`, `<bpmn:dataObject id="o1" name="o1"/>
+<bpmn:startEvent id="start">`, 1)
+	x = strings.Replace(x, `<bpmn:sequenceFlow id="f8" sourceRef="C" targetRef="end"/>`,
+		`<bpmn:sequenceFlow id="f8" sourceRef="C" targetRef="SP"/>
+<bpmn:subProcess id="SP"><bpmn:incoming>f8</bpmn:incoming><bpmn:outgoing>f9</bpmn:outgoing>
+<bpmn:startEvent id="sps"><bpmn:outgoing>g1</bpmn:outgoing></bpmn:startEvent>
+<bpmn:endEvent id="spe"><bpmn:incoming>g1</bpmn:incoming></bpmn:endEvent>
+<bpmn:sequenceFlow id="g1" sourceRef="sps" targetRef="spe"/>
+</bpmn:subProcess>
+<bpmn:sequenceFlow id="f9" sourceRef="SP" targetRef="end"/>`, 1)
+	x = strings.Replace(x, `<bpmn:incoming>f8</bpmn:incoming></bpmn:endEvent>`, `<bpmn:incoming>f9</bpmn:incoming></bpmn:endEvent>`, 1)
+	return x, rpn
 }
 
 func c08engXML(td, timeoutMs int) (string, map[string]string) {
@@ -1028,13 +1067,15 @@ func c08plan(h []c08ans) string {
 
 func c08engRun(out *rec.Out, c c08engCase, stats map[string]int) {
 	xmlText, rpn := c08engXML(c.td, c.timeoutMs)
-	if c.shape != "" {
+	if c.shape == "withsub" {
+		xmlText, rpn = c08engXMLSub(c.td, c.timeoutMs)
+	} else if c.shape != "" {
 		xmlText, rpn = c08engXMLShape(c.shape, c.td)
 	}
 	out.Begin("c08eng", c.tag)
 	defer out.End()
 	varsInt := map[string]int{"r2": 5, "u": 0, "z": 4}
-	if c.shape != "" {
+	if c.shape != "" && c.shape != "withsub" {
 		varsInt["x"] = 0
 	}
 	vars := map[string]any{}
